@@ -134,7 +134,7 @@ def case_realistic(ctx, lo, hi, seeds):
 
 def workload(tier, seed):
     n = len(small())
-    seeds = [seed * 7 + 1, seed * 7 + 2] if tier == "quick" else [seed * 7 + i for i in range(1, 13)]
+    seeds = [seed * 7 + 1, seed * 7 + 2] if tier == "quick" else [seed * 7 + i for i in range(1, 31)]
     step = 12
     for lo in range(0, n, step):
         yield "small", {"lo": lo, "hi": lo + step, "seeds": seeds}
